@@ -375,3 +375,171 @@ def _to_py_lenient(di, c):
     except Exception:
         pass
     return c
+
+
+# ---------------------------------------------------------------- nested pairs for compatible()
+
+def widen(di, rng, cross=True):
+    """a datainfo whose value set contains that of di by construction (the pairings compatible()
+    is written to support).  returns None if no such pairing applies"""
+    t = di['type']
+    if t == 'double':
+        d = {'type': 'double'}
+        if 'min' in di and rng.random() < 0.7:
+            d['min'] = di['min'] - rng.choice([0.0, 1.0, abs(di['min'])])
+        if 'max' in di and rng.random() < 0.7:
+            d['max'] = di['max'] + rng.choice([0.0, 1.0, abs(di['max'])])
+        return d
+    if t == 'int':
+        lo, hi = di['min'], di['max']
+        q = rng.random() if cross else 0.0
+        if q < 0.4:
+            return {'type': 'int', 'min': max(lo - rng.choice([0, 1, 100]), -(1 << 64)), 'max': min(hi + rng.choice([0, 1, 100]), 1 << 64)}
+        if q < 0.6 and abs(lo) < 1 << 52 and abs(hi) < 1 << 52:
+            return {'type': 'double', 'min': float(lo) - rng.choice([0.0, 0.5]), 'max': float(hi) + rng.choice([0.0, 0.5])}
+        if q < 0.75 and abs(lo) < 1 << 30 and abs(hi) < 1 << 30:
+            sc = rng.choice([1, 0.5, 0.25])
+            return {'type': 'scaled', 'scale': sc, 'min': int(lo / sc) - rng.choice([0, 2]), 'max': int(hi / sc) + rng.choice([0, 2])}
+        if q < 0.9 and hi - lo <= 12:
+            members = {f'm{i - lo}': i for i in range(lo, hi + 1)}
+            if rng.random() < 0.5:
+                members['extra'] = hi + 5
+            return {'type': 'enum', 'members': members}
+        if 0 <= lo and hi <= 1:
+            return {'type': 'bool'}
+        return {'type': 'int', 'min': lo, 'max': hi}
+    if t == 'scaled':
+        lo, hi = refdt.scaled_limits(di)
+        sc = di['scale']
+        if rng.random() < 0.5 or not cross:
+            return {'type': 'scaled', 'scale': sc, 'min': lo - rng.choice([0, 1, 50]), 'max': hi + rng.choice([0, 1, 50])}
+        return {'type': 'double', 'min': min(lo * sc, (lo - 1) * sc), 'max': max(hi * sc, (hi + 1) * sc)}
+    if t == 'bool':
+        q = rng.random() if cross else 0.0
+        if q < 0.3:
+            return {'type': 'bool'}
+        if q < 0.6:
+            return {'type': 'int', 'min': rng.choice([0, -1]), 'max': rng.choice([1, 5])}
+        if q < 0.8:
+            return {'type': 'double', 'min': 0.0, 'max': 1.0}
+        return {'type': 'enum', 'members': {'off': 0, 'on': 1, 'auto': 2}}
+    if t == 'enum':
+        m = dict(di['members'])
+        if rng.random() < 0.5:
+            m['zz_more'] = max(m.values()) + 1
+        return {'type': 'enum', 'members': m}
+    if t == 'string':
+        d = {'type': 'string'}
+        lo = di.get('minchars', 0)
+        if lo and rng.random() < 0.5:
+            d['minchars'] = lo - rng.choice([0, 1])
+            if d['minchars'] == 0:
+                del d['minchars']
+        if 'maxchars' in di and rng.random() < 0.7:
+            d['maxchars'] = di['maxchars'] + rng.choice([0, 1, 10])
+        if di.get('isUTF8') or rng.random() < 0.3:
+            d['isUTF8'] = True
+        return d
+    if t == 'blob':
+        d = {'type': 'blob', 'maxbytes': di['maxbytes'] + rng.choice([0, 1, 10])}
+        if di.get('minbytes', 0) and rng.random() < 0.5:
+            d['minbytes'] = di['minbytes'] - rng.choice([0, 1])
+            if d['minbytes'] == 0:
+                del d['minbytes']
+        return d
+    if t == 'array':
+        m = widen(di['members'], rng, cross)
+        if m is None:
+            return None
+        return {'type': 'array', 'minlen': max(di.get('minlen', 0) - rng.choice([0, 1]), 0), 'maxlen': di['maxlen'] + rng.choice([0, 1, 5]), 'members': m}
+    if t == 'tuple':
+        ms = [widen(m, rng, cross) for m in di['members']]
+        if None in ms:
+            return None
+        return {'type': 'tuple', 'members': ms}
+    if t == 'struct':
+        ms = {n: widen(m, rng, cross) for n, m in di['members'].items()}
+        if None in ms.values():
+            return None
+        opt = list(di.get('optional', di['members']))
+        d = {'type': 'struct', 'members': ms}
+        if rng.random() < 0.4:
+            ms['new_opt'] = gen_leaf(rng)
+            opt.append('new_opt')
+        if set(opt) != set(ms):
+            d['optional'] = opt
+        return d
+    return None
+
+
+def narrow_one(di, rng):
+    """break nestedness in one dimension: a datainfo that lacks at least one value of di (or None)"""
+    t = di['type']
+    if t == 'double':
+        if 'max' in di and di.get('min', -FMAX) < di['max']:
+            lo = di.get('min', di['max'] - 10)
+            return dict(di, max=lo * 0.5 + di['max'] * 0.5)
+        if 'max' in di and 'min' in di:
+            return None     # degenerate range
+        if 'min' in di:
+            return dict(di, min=di['min'] + 1.0)
+        if 'max' in di:
+            return dict(di, max=di['max'] - 1.0)
+        return dict(di, max=1e10)
+    if t == 'int':
+        if di['min'] < di['max']:
+            return dict(di, max=di['max'] - 1) if rng.random() < 0.5 else dict(di, min=di['min'] + 1)
+        return None
+    if t == 'scaled':
+        lo, hi = refdt.scaled_limits(di)
+        if hi - lo >= 4:
+            d = {k: v for k, v in di.items() if not k.startswith('_')}
+            d.update(min=lo, max=hi - 3)
+            return d
+        return None
+    if t == 'enum':
+        if len(di['members']) > 1:
+            m = dict(di['members'])
+            m.pop(rng.choice(sorted(m)))
+            return {'type': 'enum', 'members': m}
+        return None
+    if t == 'string':
+        if di.get('isUTF8') and rng.random() < 0.4:
+            d = dict(di)
+            del d['isUTF8']
+            return d
+        hi = di.get('maxchars')
+        if hi is None:
+            return dict(di, maxchars=di.get('minchars', 0) + 5)
+        if hi > di.get('minchars', 0):
+            return dict(di, maxchars=hi - 1)
+        return None
+    if t == 'blob':
+        if di['maxbytes'] > di.get('minbytes', 0):
+            return dict(di, maxbytes=di['maxbytes'] - 1) if di['maxbytes'] > 1 else dict(di, minbytes=1)
+        return None
+    if t == 'array':
+        if rng.random() < 0.5 and di['maxlen'] > max(di.get('minlen', 0), 1):
+            return dict(di, maxlen=di['maxlen'] - 1)
+        m = narrow_one(di['members'], rng)
+        return None if m is None or di['maxlen'] == 0 else dict(di, members=m)
+    if t == 'tuple':
+        i = rng.randrange(len(di['members']))
+        m = narrow_one(di['members'][i], rng)
+        if m is None:
+            return None
+        ms = list(di['members'])
+        ms[i] = m
+        return dict(di, members=ms)
+    if t == 'struct':
+        opt = di.get('optional', list(di['members']))
+        if opt and rng.random() < 0.4:
+            # an optional member of the source becomes mandatory in the target
+            k = rng.choice(sorted(opt))
+            return dict(di, optional=[o for o in opt if o != k])
+        k = rng.choice(sorted(di['members']))
+        m = narrow_one(di['members'][k], rng)
+        if m is None:
+            return None
+        return dict(di, members=dict(di['members'], **{k: m}))
+    return None
